@@ -3,9 +3,11 @@ package c18
 import (
 	"fmt"
 	"math"
+	"slices"
 
 	"github.com/tuneinsight/lattigo/v6/circuits/ckks/bootstrapping"
 	"github.com/tuneinsight/lattigo/v6/circuits/ckks/mod1"
+	"github.com/tuneinsight/lattigo/v6/core/rlwe"
 	"github.com/tuneinsight/lattigo/v6/ring"
 	"github.com/tuneinsight/lattigo/v6/schemes/ckks"
 	"github.com/tuneinsight/lattigo/v6/utils"
@@ -42,6 +44,9 @@ type cfg struct {
 	Order    int       `json:"circuitOrder,omitempty"`
 	// origin of the set (exported default literal it was reduced from), informational
 	From string `json:"from,omitempty"`
+	// Q0Above: the residual moduli are given explicitly, the generated ones except that Q[0] is the first
+	// NTT-friendly prime ABOVE 2^ResLogQ[0] (generated chains start below the power of two at these sizes)
+	Q0Above bool `json:"q0Above,omitempty"`
 }
 
 func (c cfg) k() int {
@@ -64,6 +69,27 @@ func (c cfg) resLit() ckks.ParametersLiteral {
 		lit.LogNthRoot = c.BtpLogN + 1
 	} else if c.ResLogN != c.BtpLogN {
 		lit.LogNthRoot = c.BtpLogN + 1
+	}
+	if c.Q0Above {
+		lnr := max(c.ResLogN+1, lit.LogNthRoot)
+		if c.CI {
+			lnr = max(c.ResLogN+2, lit.LogNthRoot)
+		}
+		q, p, err := rlwe.GenModuli(lnr, c.ResLogQ, c.ResLogP)
+		if err == nil {
+			g := ring.NewNTTFriendlyPrimesGenerator(uint64(c.ResLogQ[0]), uint64(1)<<lnr)
+			for {
+				q0, err := g.NextUpstreamPrime()
+				if err != nil {
+					break
+				}
+				if !slices.Contains(q, q0) && !slices.Contains(p, q0) {
+					q[0] = q0
+					break
+				}
+			}
+			lit.Q, lit.P, lit.LogQ, lit.LogP = q, p, nil, nil
+		}
 	}
 	return lit
 }
@@ -319,6 +345,15 @@ func namedConfigs() []cfg {
 	{
 		c := base("evalmod50-n9", 9)
 		c.EvalMod = 50
+		add(c)
+		// first prime just above its power of two, EvalMod scale equal to that power (the shape of the shipped
+		// N16QP1553 / N16QP1793 sets at log N = 16): the division by round(log2 Q0) must not be taken for granted
+		c = base("q0above-n9", 9)
+		c.Q0Above = true
+		add(c)
+		c = base("q0above-evalmod55-n9", 9)
+		c.ResLogQ, c.EvalMod, c.Q0Above = []int{55, 40, 40}, 55, true
+		c.LogRatio = min(c.LogRatio, 55-40-2)
 		add(c)
 		c = base("logp1-n9", 9)
 		c.BtpLogP = []int{61}
